@@ -233,13 +233,27 @@ func runC04(o Opts) error {
 	// 1b. the hex dump the driver formats for every request and every received datagram (before it looks at the debug
 	// flag): every length 0..300, then random lengths up to the 2048-byte read buffer
 	dumps := 0
-	for i := 0; i < 300+nDecode/20; i++ {
+	for i := 0; i < 300+256+nDecode/20; i++ {
 		n := i
 		if i > 300 {
 			n = r.Intn(2049)
 		}
 		buf := r.Bytes(n)
+		if i > 300 && i <= 300+256 { // a 64-byte message of every function code, all other bytes non-zero
+			n = 64
+			buf = r.Bytes(64)
+			for k := range buf {
+				buf[k] |= 1
+			}
+			buf[0], buf[1] = 0x17, byte(i-301)
+		}
+		before := append([]byte{}, buf...)
 		func() {
+			defer func() {
+				if string(before) != string(buf) {
+					s.Fail(map[string]any{"op": "dump", "buf_hex": hexs(before), "length": n}, "codec.Dump modified the message it was given to print")
+				}
+			}()
 			defer func() {
 				if rec := recover(); rec != nil {
 					s.Fail(map[string]any{"op": "dump", "buf_hex": hexs(buf), "length": n}, fmt.Sprintf("codec.Dump panicked on a %d-byte datagram: %v", n, rec))
@@ -249,7 +263,7 @@ func runC04(o Opts) error {
 			if n > 0 && len(out) < 2*n {
 				s.Fail(map[string]any{"op": "dump", "buf_hex": hexs(buf), "length": n}, "codec.Dump lost bytes")
 			}
-			if i <= 80 || i%50 == 0 { // a sample through the model: the bytes printed on each row
+			if i <= 80 || i%50 == 0 || (i > 300 && i <= 300+256) { // a sample through the model: the bytes printed on each row
 				rows := []string{}
 				for _, line := range strings.Split(strings.TrimRight(out, "\n"), "\n") {
 					if line == "" {
